@@ -8,6 +8,10 @@ RULE = ("R cases in strict mode (nothing tolerated, nothing buffered) over valid
         "unknown-size masters at several depths; an independent checker (props/readcheck.py check_strict, written from the property text) "
         "replays the emitted items against the input: End/Start matching incl. implied ancestors, known ids, declared-path matching of the "
         "chain of open masters, containment in every enclosing known-size master, End exactly at exhaustion, EOF closing innermost first.  "
+        "History cases (hist-flat / hist-buf): mutated streams and valid documents with a junk byte inserted, read by random next()/try_recover()/drain "
+        "sequences, half of them with masters of the document buffered; check_nesting_history judges the nesting clause over everything the run emits, "
+        "across errors and recoveries (Full items unrolled): an End closes the most recent unmatched Start, or an implied ancestor when none is open.  "
+        "With buffered masters an error met inside a buffered master is known finding D29 (class error_in_buffered_master).  "
         "non-trivial = model emits >= 3 items; distinct = distinct case line")
 TRUSTED = TRUSTED_BASE
 ASSUMPTIONS = ASSUME_BASE
@@ -22,6 +26,33 @@ def generate(rng, tier):
         sp, data, kind, _ = gen_stream(rng, specs, big=(k % 13 == 0), p_valid=0.4, p_mut=0.45, mid=0.3, p_over=0.3)
         cfg = E.cfg_str(maxs=safe_max(rng, kind), cap=rng.choice(["def", "def", "3", "16"]), eof=1)
         cases.append(Case("R %s %s - %s N" % (sp.s(), cfg, data.hex() or "-"), kind))
+    # the nesting clause over WHOLE histories: errors, try_recover() and further calls, with and without buffered masters
+    for k in range(6000 * TH if thorough else 900):
+        sp, data, kind, _ = gen_stream(rng, specs, big=False, p_valid=0.15, p_mut=0.7, mid=0.2, p_over=0.3)
+        masters = sp.masters()
+        buffered = tuple(sorted(rng.sample(masters, rng.randint(1, min(3, len(masters)))))) if masters and rng.random() < 0.5 else ()
+        cfg = E.cfg_str(maxs=safe_max(rng, "mutated"), cap=rng.choice(["def", "def", "3", "16"]), eof=1, buffered=buffered)
+        ops = "".join(rng.choice("nnnttN") for _ in range(rng.randint(2, 10))) + "N"
+        if k % 2 == 0:
+            # a valid document with a junk byte inserted somewhere, masters that occur in it (below the root) buffered, drain / recover / drain
+            sp = rng.choice(specs)
+            nodes = strip_enc(E.rand_doc(rng, sp, big=False, unknown_p=0.3))
+            data = bytearray(E.encode(nodes))
+            def below(ns, depth, acc):
+                for n in ns:
+                    if n.is_master():
+                        if depth > 0:
+                            acc.add(n.tag[1])
+                        below(n.children, depth + 1, acc)
+                return acc
+            inner = sorted(below(nodes, 0, set()))
+            if data and inner:
+                data.insert(rng.randrange(len(data) + 1), rng.choice([0xF7, 0x00, 0xFF, rng.getrandbits(8)]))
+                buffered = tuple(sorted(rng.sample(inner, rng.randint(1, min(2, len(inner))))))
+                cfg = E.cfg_str(maxs=safe_max(rng, "mutated"), cap=rng.choice(["def", "16"]), eof=1, buffered=buffered)
+                ops = rng.choice(["NtN", "NtNtN", "nnNtN", "NtntN"])
+                data = bytes(data)
+        cases.append(Case("R %s %s - %s %s" % (sp.s(), cfg, data.hex() or "-", ops), "hist-" + ("buf" if buffered else "flat")))
     return cases
 
 
@@ -37,7 +68,46 @@ def oracle(case, outs):
     sp = spec_of_line(case.lines[0])
     data = b"" if f[4] == "-" else bytes.fromhex(f[4])
     items = E.parse_items(out.split(" ")) if out else []
+    if case.cls.startswith("hist-") or f[5] != "N" or ",b-," not in f[2]:
+        err = check_nesting_history(sp, items)
+        if err:
+            return "%s   [%s -> %s]" % (err, case.lines[0][:400], out[:400])
+        return None
     err = RC.check_strict(sp, data, items)
     if err:
         return "%s   [%s -> %s]" % (err, case.lines[0][:400], out[:400])
+    return None
+
+
+def check_nesting_history(spec, items):
+    """Well-nestedness of everything a strict run emits, across errors and recoveries, Full items unrolled: an End closes the most recent
+    unmatched Start; only when no emitted Start is open may it close an implied ancestor (a declared master).  Every item has a declared id."""
+    stack = []
+    for it in items:
+        if it[0] != "item":
+            continue
+        for tag in E.flat([it[1]]):
+            if tag[0] == "s":
+                stack.append(tag[1])
+            elif tag[0] == "e":
+                if stack:
+                    top = stack.pop()
+                    if top != tag[1]:
+                        return "End %x does not match the most recent unmatched Start %x" % (tag[1], top)
+                elif spec.get_type(tag[1]) != "M":
+                    return "End %x of something that is not a declared master" % tag[1]
+            elif spec.get_type(tag[1]) is None or tag[0] == "r":
+                return "strict parse emitted an item with an id outside the specification: %s" % E.tag_str(tag)[:60]
+    return None
+
+
+def known_class(case, outs):
+    """D29: an error met while a buffered master is being collected (buffer_master is not resumable: the collected children are dropped, the
+    master stays open, its End comes without a Start)"""
+    f = case.lines[0].split(" ")
+    if ",b-," not in f[2] and any(" E:" in (" " + o) for o in outs):
+        # only the orphan End of this class: any other failure of a buffered run is reported
+        err = check_nesting_history(spec_of_line(case.lines[0]), E.parse_items(outs[0].split(" ")) if outs[0] else [])
+        if err and "does not match the most recent unmatched Start" in err:
+            return "error_in_buffered_master"
     return None
